@@ -78,7 +78,11 @@ def run(name, tier):
     d = worktree('run-' + name)
     try:
         rc, out = sh('git -C %s apply %s' % (d, os.path.join(sd, 'patch.diff')))
-        assert rc == 0, out
+        if rc != 0:
+            meta['obsolete'] = 'patch no longer applies to /repo HEAD %s (the lines it edits were rewritten by a later fix: commit); last recorded detection is kept' % sh('git -C /repo rev-parse --short HEAD')[1].strip()
+            json.dump(meta, open(os.path.join(sd, 'meta.json'), 'w'), indent=1)
+            print('%-28s %s OBSOLETE: patch does not apply any more' % (name, pid))
+            return True
         t0 = time.time()
         rc, out = sh('cd %s && PYG_REPO=%s timeout 3600 ./check %s --tier %s' % (VERIF, d, pid, tier))
         lines = [l for l in out.split('\n') if l.startswith('VIOLATION') or l.startswith('KNOWN-FINDING')]
